@@ -127,6 +127,10 @@ enum Job {
     Call(JobFn),
     HoldRef(u64),
     ReleaseRef,
+    /// a lazy multi_get_iterator (or its mapping variant) is created and kept by the client thread; every `iter_next` takes one
+    /// element from it, so writes by other callers (or by this one) fall between two `next()` calls
+    IterOpen(Vec<u64>, bool),
+    IterNext,
 }
 
 struct Client {
@@ -217,6 +221,8 @@ fn spawn_client(tid: usize, ctl: Arc<Controller>, cache: Arc<CacheD<u64, u64>>) 
         ctl.register_client(tid);
         let cache_ref: &CacheD<u64, u64> = &cache;
         let mut held = None;
+        let mut iter_plain: Option<tinylfu_cached::cache::cached::MultiGetIterator<'_, u64, u64>> = None;
+        let mut iter_mapped: Option<Box<dyn Iterator<Item = Option<i128>> + '_>> = None;
         while let Ok(Some(job)) = rx.recv() {
             let outcome = panic::catch_unwind(AssertUnwindSafe(|| match job {
                 Job::Call(f) => f(cache_ref),
@@ -227,6 +233,24 @@ fn spawn_client(tid: usize, ctl: Arc<Controller>, cache: Arc<CacheD<u64, u64>>) 
                     ret
                 }
                 Job::ReleaseRef => { held = None; Ret::Ints(vec![]) }
+                Job::IterOpen(keys, mapped) => {
+                    // the keys must outlive the iterator: they are leaked (a few words per schedule)
+                    let owned: &'static Vec<u64> = Box::leak(Box::new(keys));
+                    let refs: Vec<&u64> = owned.iter().collect();
+                    if mapped {
+                        iter_plain = None;
+                        iter_mapped = Some(Box::new(cache_ref.multi_get_map_iterator(refs, |v| v as i128 * 2 + 1)));
+                    } else {
+                        iter_mapped = None;
+                        iter_plain = Some(cache_ref.multi_get_iterator(refs));
+                    }
+                    Ret::Ints(vec![])
+                }
+                Job::IterNext => {
+                    let item: Option<Option<i128>> = if let Some(it) = iter_plain.as_mut() { it.next().map(|v| v.map(|x| x as i128)) }
+                        else if let Some(it) = iter_mapped.as_mut() { it.next() } else { None };
+                    match item { Some(Some(v)) => Ret::Ints(vec![v]), _ => Ret::Ints(vec![]) }
+                }
             }));
             let ret = match outcome {
                 Ok(ret) => ret,
@@ -304,6 +328,7 @@ struct Case {
     worker_at_point: bool,
     client_job: Vec<String>,
     sweeper_at_point: bool,
+    sweeper_stepping: bool,
     sweeps_before: u64,
     last_snap: Option<Snapshot>,
 }
@@ -338,7 +363,7 @@ impl Case {
         let consumed = vec![0; cfg.clients];
         let ncl = cfg.clients;
         let _ = ctl.take_oracle();
-        Case { name: name.to_string(), cfg, ctl, cache, clock, clients, acks: Vec::new(), consumed, index: 0, guards_held: 0, stepping_clients: Vec::new(), worker_at_point: false, client_job: vec![String::new(); ncl], sweeper_at_point: false, sweeps_before: 0, last_snap: None }
+        Case { name: name.to_string(), cfg, ctl, cache, clock, clients, acks: Vec::new(), consumed, index: 0, guards_held: 0, stepping_clients: Vec::new(), worker_at_point: false, client_job: vec![String::new(); ncl], sweeper_at_point: false, sweeper_stepping: false, sweeps_before: 0, last_snap: None }
     }
 
     /// does a thread in point-stepping mode stop at this schedule point (in this case's mode, for this job)?
@@ -533,6 +558,11 @@ impl Case {
                     let job = match parts[2] {
                         "hold_ref" => { self.guards_held += 1; Job::HoldRef(parts[3].parse().unwrap()) }
                         "release_ref" => Job::ReleaseRef,
+                        "iter_open" | "iter_open_map" => {
+                            let keys: Vec<u64> = if parts[3] == "-" { vec![] } else { parts[3].split(',').map(|x| x.parse().unwrap()).collect() };
+                            Job::IterOpen(keys, parts[2] == "iter_open_map")
+                        }
+                        "iter_next" => Job::IterNext,
                         _ => Job::Call(build_job(&parts[2..])),
                     };
                     let releasing = parts[2] == "release_ref";
@@ -585,6 +615,7 @@ impl Case {
                     _ if self.sweeper_at_point => skipped = true,
                     _ => {
                         self.sweeps_before = self.ctl.sweeps_done();
+                        self.sweeper_stepping = true;
                         self.ctl.set_stepping(Role::Sweeper, true);
                         self.ctl.tick_async();
                         ret = self.wait_sweeper_point();
@@ -723,11 +754,18 @@ impl Case {
         }
         let consumer_gone = matches!(self.ctl.role_state(Role::Consumer), RoleState::Exited | RoleState::Dead(_));
         // a thread stopped at a probe point holds a lock the snapshot needs: keep the previous snapshot meanwhile
+        // probe schedules: no snapshot while any thread is inside a stepped action - stopped at a lock-holding point, blocked on
+        // a lock another stopped thread holds, or still on its way to its next point (it may stop there holding a lock the
+        // snapshot needs, and only this thread could release it)
         let mut lock_held = false;
         if self.cfg.points == "probe" {
-            let mut roles = vec![Role::Worker, Role::Sweeper, Role::Consumer];
-            for tid in 0..self.cfg.clients { roles.push(Role::Client(tid)); }
-            lock_held = roles.into_iter().any(|r| self.ctl.at_point(r).map(|l| LOCK_POINTS.contains(&l)).unwrap_or(false));
+            let sweeping = self.sweeper_stepping && self.ctl.sweeps_done() <= self.sweeps_before
+                && !matches!(self.ctl.role_state(Role::Sweeper), RoleState::Dead(_) | RoleState::Exited);
+            let working = matches!(self.ctl.role_state(Role::Worker), RoleState::Running) || self.ctl.at_point(Role::Worker).is_some();
+            let consuming = matches!(self.ctl.role_state(Role::Consumer), RoleState::Running) || self.ctl.at_point(Role::Consumer).is_some();
+            let calling = (0..self.cfg.clients).any(|tid| matches!(self.ctl.client_state(tid), ClientState::Running | ClientState::AtPoint(_))
+                || self.ctl.at_point(Role::Client(tid)).is_some());
+            lock_held = sweeping || working || consuming || calling;
         }
         let snap = if lock_held && self.last_snap.is_some() { self.last_snap.clone().unwrap() } else { self.cache.verif_snapshot() };
         self.last_snap = Some(snap.clone());
